@@ -9,7 +9,7 @@ use std::io::Write;
 type Draw = fn() -> Vec<u8>;
 thread_local! { static REUSE: std::cell::RefCell<[u8; 96]> = std::cell::RefCell::new([0x5au8; 96]); }
 
-fn b64dec(s: &str) -> Vec<u8> {
+pub fn b64dec(s: &str) -> Vec<u8> {
     use base64::Engine as _;
     base64::engine::general_purpose::STANDARD_NO_PAD.decode(s).unwrap_or_default()
 }
